@@ -176,11 +176,22 @@ def generate(module, constants, work, out_name, workers=1, timeout=3600, spec="S
     return outp, st
 
 
+class Stats(dict):
+    """STATS of one harness run; a run ended by the watchdog prints none, missing counters read as 0."""
+    def __missing__(self, key):
+        return 0
+
+
+HANGS = []      # every harness run ended by the watchdog in this check: {"args", "work", "hang", "handled"}
+
+
 def vh(args, work, timeout=3600):
     build_harness()
     hang = os.path.join(work, "hang.ndjson")
+    if os.path.exists(hang):
+        os.remove(hang)
     p = sh([VH] + args + ["--hang", hang], cwd=work, check=False, timeout=timeout)
-    stats = {}
+    stats = Stats()
     for line in p.stdout.splitlines():
         if line.startswith("STATS "):
             stats = json.loads(line[6:])
@@ -188,6 +199,9 @@ def vh(args, work, timeout=3600):
         raise ToolError("harness failed: vh %s\n%s" % (" ".join(args), p.stdout[-4000:]))
     if os.path.exists(hang) and os.path.getsize(hang) > 0:
         stats["hang"] = [json.loads(l) for l in open(hang)]
+        for h in stats["hang"]:
+            log("HANG: the code under test did not return (vh %s): %s" % (" ".join(args[:2]), json.dumps(h)[:400]))
+            HANGS.append({"args": list(args), "work": work, "hang": h, "handled": False})
     return stats
 
 
